@@ -70,6 +70,24 @@ theorem assign_frame (s : Store) (x y : Nat) (idx : Index) (v : Value Int)
       exact List.getElem?_set_ne this
   · rfl
 
+theorem poke_frame (s : Store) (x y k : Nat) (v : Int)
+    (hne : s.var x ≠ s.var y) : (stepS s (.poke x k v)).1.val y = s.val y := by
+  simp only [stepS]
+  split
+  · rename_i r c _ hc
+    split
+    · unfold Store.val
+      show (s.var y).bind ((s.cells.set c (Spec.setFlat r k v))[·]?) = _
+      cases hy : s.var y with
+      | none => rfl
+      | some d =>
+        have : c ≠ d := by
+          intro e; subst e; exact hne (hc.trans hy.symm)
+        simp only [Option.bind_some]
+        exact List.getElem?_set_ne this
+    · rfl
+  · rfl
+
 theorem alias_shares (s : Store) (x : Nat) (hx : (s.var x).isSome) :
     (stepS s (.alias x)).1.var s.vars.length = s.var x := by
   cases hv : s.var x with
